@@ -599,7 +599,7 @@ fn literal_data() -> Vec<Sx> {
 }
 
 fn literal_data_matrix(acc: &mut Acc) {
-    let mut it = Interp::new().expect("interpreter");
+    let mut it = Interp::must_new();
     let d = literal_data();
     let wrap = |k: usize, x: &Sx| -> Sx {
         match k {
@@ -661,7 +661,7 @@ pub fn run(ctx: &Ctx) -> i32 {
     let acc = par::sweep(
         total,
         8,
-        |_| Interp::new().expect("interpreter"),
+        |_| Interp::must_new(),
         |it, acc: &mut Acc, i| {
             if std::env::var("C04_TRACE").is_ok() {
                 eprintln!("RULESET {}", i);
